@@ -53,7 +53,7 @@ def interior(consts, seed):
     return c
 
 
-ALL_FAMS = ["shapes", "single", "dep", "names", "totals", "pairs", "cross", "mix", "update"]
+ALL_FAMS = ["shapes", "single", "dep", "names", "totals", "pairs", "cross", "mix", "update", "trunc"]
 
 
 def render_cfg(consts, tier, impl, kind, fams=None):
@@ -107,8 +107,8 @@ def get_table(vh):
 
 FAM_GROUPS = {
     "tiny": [ALL_FAMS],
-    "quick": [["pairs"], ["single", "totals"], ["shapes", "dep", "names", "cross", "mix", "update"]],
-    "thorough": [["totals"], ["cross"], ["pairs", "mix"], ["single"], ["shapes", "dep", "names", "update"]],
+    "quick": [["pairs"], ["single", "totals"], ["shapes", "dep", "names", "cross", "mix", "update", "trunc"]],
+    "thorough": [["totals"], ["cross"], ["pairs", "mix"], ["single"], ["shapes", "dep", "names", "update", "trunc"]],
 }
 
 
